@@ -1,5 +1,3 @@
-use std::cmp;
-
 use rosu_map::section::general::GameMode;
 
 use crate::{
@@ -169,7 +167,12 @@ impl Iterator for ManiaGradualDifficulty {
             .zip(self.objects_is_circle.iter().skip(1))
             .skip(self.idx.saturating_sub(1));
 
-        let mut take = cmp::min(n, self.len().saturating_sub(1));
+        let len = self.len();
+
+        // As per `Iterator::nth`, if fewer than `n + 1` values remain, all
+        // of them are consumed and `None` is returned.
+        let exhaust = n >= len;
+        let mut take = if exhaust { len } else { n };
 
         // The first note has no difficulty object
         if self.idx == 0 && take > 0 {
@@ -185,12 +188,20 @@ impl Iterator for ManiaGradualDifficulty {
             self.idx += 1;
         }
 
+        if exhaust {
+            return None;
+        }
+
         self.next()
     }
 }
 
 impl ExactSizeIterator for ManiaGradualDifficulty {
     fn len(&self) -> usize {
+        if self.objects_is_circle.is_empty() {
+            return 0;
+        }
+
         self.diff_objects.len() + 1 - self.idx
     }
 }
